@@ -82,7 +82,13 @@ func workload(r *ev.Run) ([]*Job, map[string]any, error) {
 			for _, f := range fixed {
 				jobs = append(jobs, corpusJob(p, f))
 			}
-			for _, f := range pw {
+			rows := pw
+			if size(p) >= 300_000 && len(rows) > 3 {
+				// format_gen, telegram, gotd: a compile costs minutes of CPU; three rows, rotating with the seed
+				k := rng.Intn(len(pw))
+				rows = []FeatSet{pw[k], pw[(k+1)%len(pw)], pw[(k+2)%len(pw)]}
+			}
+			for _, f := range rows {
 				jobs = append(jobs, corpusJob(p, f))
 			}
 		case small[p]:
